@@ -304,3 +304,22 @@ prop(
                    "the tracker of harness/src/props/crash.rs that turns hook events H2/H3 and syscalls into protocol events, durable copies and directory images"],
     timeout={"quick": 3000, "thorough": 20000},
 )
+
+prop(
+    id="C16", module="Properties.C16", vfile="Properties/C16.v", level="proof", subcmd="c16",
+    theorems=["C16_reads_survive_and_commits_refused", "C16_stopping_anywhere_is_reachable", "C16_reopen_after_fault_is_prefix", "C16_error_shutdown_accepted"],
+    counts={"quick": 160, "thorough": 6000, "search": 640},
+    rule=CRASH_RULE + "; C16: at a random pipeline-stage step of the history the number of file operations that still succeed is set to a random value 0-40 "
+         "(the repository's try_io injection: every later file operation of the thread fails); the stage that fails is handled the way a background worker handles it "
+         "(hook H6 verif_store_err); from then on only commits and reads happen: every commit must be refused, every read (injection suspended around reads) must equal the "
+         "transactions accepted so far (counted columns: positive count => readable); the handle is dropped with the fault still present (2/3) or lifted for the dropping thread (1/3); "
+         "then the directory is opened without fault and must hold a prefix of the accepted transactions containing everything synced before the failure; crash and power-loss images "
+         "are taken throughout, also during the drop",
+    assumptions=["faults are injected at the file operations the repository wraps in try_io (81 sites), on the thread that runs the stages; a failing operation is not executed at all",
+                 "without background threads (stepping API); the worker's error handling is reproduced by hook H6",
+                 "reads are not pipeline file operations: the injection is suspended around them (the instrumentation would otherwise fail index page reads too)"],
+    explanation="pipeline model with a failed stage: reads unchanged, commits refused (proved for every history); log protocol: the writer may stop after any prefix of its file-level events "
+                "and the state is reachable, so the recovery theorem applies; the error shutdown (flush, truncate) is accepted by the protocol",
+    trusted_extra=["syscall interposition and tracker as for C02/C12", "the repository's own try_io failure injection (instrumentation feature)"],
+    timeout={"quick": 3000, "thorough": 20000},
+)
